@@ -314,6 +314,10 @@ Definition run (fn : Z) (a : sx) : sx :=
   | 71 => (* FN write_out : (subclass early_out late_out write_beh packet) *)
       of_dispatch (write_out (rel_of (sx_nth a 0)) (map sx_listener (sx_list (sx_nth a 1))) (map sx_listener (sx_list (sx_nth a 2)))
                              (beh_fn (sx_nth a 3)) (sx_packet (sx_nth a 4)))
+  | 73 => (* FN flush_all : (subclass early_out late_out write_beh packets) -> events, outcome, keys still queued *)
+      let r := flush_all (rel_of (sx_nth a 0)) (map sx_listener (sx_list (sx_nth a 1))) (map sx_listener (sx_list (sx_nth a 2)))
+                         (beh_fn (sx_nth a 3)) (map sx_packet (sx_list (sx_nth a 4))) in
+      L [L (map of_event (fst (fst r))); of_outcome (snd (fst r)); L (map (fun q => I (p_key q)) (snd r))]
   | 72 => (* FN handle_exception : (isinst hook handlers final exc) *)
       of_result (handle_exception (rel_of (sx_nth a 0)) (sx_hook (sx_nth a 1)) (map sx_handler (sx_list (sx_nth a 2))) (sx_final (sx_nth a 3)) (sx_z (sx_nth a 4)))
   | 80 => (* FN session_run : (secret has_token f107 schedule) ; RSA is reported as the plaintext it carries *)
